@@ -572,7 +572,7 @@ class Folder:
                 if type(bm).__name__ == "_BoundMethod":
                     return bm.call(self, [self.fold(a) for a in args], {k.arg: self.fold(k.value) for k in e.keywords if k.arg})
                 raise Unfoldable(unparse(e))
-            if recv is not NotImplemented and not e.keywords:
+            if recv is not NotImplemented and (not e.keywords or (isinstance(recv, (str, bytes, bytearray)) and e.func.attr in ("encode", "decode") and all(k.arg in ("encoding", "errors") for k in e.keywords))):
                 m = e.func.attr
                 if isinstance(recv, (frozenset, set)) and m in ("union", "intersection", "difference", "symmetric_difference", "issubset", "issuperset", "isdisjoint", "copy"):
                     return getattr(frozenset(recv), m)(*[self._iter_arg(a) for a in args])
@@ -588,11 +588,11 @@ class Folder:
                         from .absint import Raised
 
                         raise Raised("KeyError", e)
-                if isinstance(recv, str) and m in ("split", "rsplit", "startswith", "endswith", "count", "replace", "join", "isdigit", "isascii", "isdecimal"):
+                if isinstance(recv, str) and m in ("split", "rsplit", "startswith", "endswith", "count", "replace", "join", "isdigit", "isascii", "isdecimal", "strip", "lstrip", "rstrip", "isspace", "splitlines", "partition", "rpartition", "find", "rfind", "removeprefix", "removesuffix", "lower", "upper", "casefold", "title", "isalpha", "isalnum", "isidentifier", "islower", "isupper"):
                     return getattr(recv, m)(*[self.fold(a) for a in args])
                 if (isinstance(recv, str) and m == "encode") or (isinstance(recv, (bytes, bytearray)) and m == "decode"):
                     try:
-                        return getattr(recv, m)(*[self.fold(a) for a in args])
+                        return getattr(recv, m)(*[self.fold(a) for a in args], **{k.arg: self.fold(k.value) for k in e.keywords if k.arg in ("encoding", "errors")})
                     except UnicodeError as ex:
                         from .absint import Raised
 
